@@ -177,6 +177,20 @@ func (fv *FV) evalCall(st *State, call *ast.CallExpr) []Val {
 		rv := fv.eval(st, recvExpr)
 		// auto address / deref
 		rt := info.TypeOf(recvExpr)
+		// promoted method: walk the implicit embedded-field path to the real receiver
+		if se, ok := unparen(call.Fun).(*ast.SelectorExpr); ok && !isIface {
+			if sel := info.Selections[se]; sel != nil && len(sel.Index()) > 1 {
+				for _, idx := range sel.Index()[:len(sel.Index())-1] {
+					stt := structOf(rt)
+					if stt == nil || idx >= stt.NumFields() {
+						fv.unsupported("promoted method through a non-struct")
+					}
+					f := stt.Field(idx)
+					rv = fv.stepField(st, rv, rt, f, recvExpr)
+					rt = f.Type()
+				}
+			}
+		}
 		if sig.Recv() != nil {
 			wantPtr := isPointer(sig.Recv().Type())
 			havePtr := isPointer(rt)
@@ -228,7 +242,12 @@ func (fv *FV) evalCall(st *State, call *ast.CallExpr) []Val {
 	}
 	if fv.w.isTrustedPure(full) {
 		fv.note("call %s: assumed pure (speclib trusted list), result unconstrained", full)
-		return fv.havocResults(isig, full)
+		rs := fv.havocResults(isig, full)
+		if (full == "fmt.Errorf" || full == "errors.New") && len(rs) == 1 && rs[0].S == "Any" {
+			// these constructors never return a nil error
+			fv.assume(st, fmt.Sprintf("(not (= %s nil!Any))", rs[0].T))
+		}
+		return rs
 	}
 	fv.unsupported("call to %s: no contract, not inlinable, not in the trusted list", full)
 	return nil
@@ -573,6 +592,7 @@ func (fv *FV) concatSeq(st *State, a, b Val, t types.Type) Val {
 	es := seqElemSort(a.S)
 	mem := fv.sess.fnMem(es)
 	fv.assume(st, fmt.Sprintf("(forall ((i!q Int)) (! (=> (and (<= 0 i!q) (< i!q (sq.len %s))) (= (select (sq.arr %s) (+ i!q (sq.len %s))) (select (sq.arr %s) i!q))) :pattern ((select (sq.arr %s) i!q))))", b.T, r.T, a.T, b.T, b.T))
+	fv.assume(st, fmt.Sprintf("(forall ((i!q Int)) (! (=> (and (<= 0 i!q) (< i!q (sq.len %s))) (= (select (sq.arr %s) i!q) (select (sq.arr %s) i!q))) :pattern ((select (sq.arr %s) i!q))))", a.T, r.T, a.T, a.T))
 	fv.assumeHint(st, mem, fmt.Sprintf("(forall ((x!q %s)) (! (= (%s %s x!q) (or (%s %s x!q) (%s %s x!q))) :pattern ((%s %s x!q)) :pattern ((%s %s x!q)) :pattern ((%s %s x!q))))", es, mem, r.T, mem, a.T, mem, b.T, mem, r.T, mem, a.T, mem, b.T))
 	return r
 }
